@@ -378,6 +378,10 @@ type Net struct {
 	byAddr map[string]*Node
 	// Cut[a][b] true: messages from a to b are lost (error returned to the sender)
 	Cut map[int]map[int]bool
+	// SyncPacketLatency: virtual time each packet of a sync stream takes
+	SyncPacketLatency time.Duration
+	// SilentCuts: packets of an already open sync stream that cross a cut link are lost silently (the stream stalls)
+	SilentCuts bool
 	// Ledger of every partial handed to a live handler
 	Ledger []*Delivery
 	// Sent records every PartialBeacon call leaving a node, even to unreachable peers
@@ -573,8 +577,10 @@ func (n *Net) Deliver(ctx context.Context, fromIdx int, fromAddr string, to *Nod
 }
 
 type chanStream struct {
-	ctx context.Context
-	ch  chan *proto.BeaconPacket
+	ctx      context.Context
+	ch       chan *proto.BeaconPacket
+	net      *Net
+	from, to *Node // the stream goes from the serving node `to` to the requesting node `from`
 }
 
 func (s *chanStream) Context() context.Context { return s.ctx }
@@ -583,6 +589,15 @@ func (s *chanStream) Send(b *proto.BeaconPacket) error {
 	case <-s.ctx.Done():
 		return s.ctx.Err()
 	default:
+	}
+	if s.net != nil && s.net.SyncPacketLatency > 0 {
+		s.to.Clock.Sleep(s.net.SyncPacketLatency) // a long catch-up takes time: faults can hit it in the middle
+	}
+	// a partition does not close an open stream, it silences it: what the server sends while the link is cut (or
+	// while the server node is stopped) never arrives and the client sees neither data nor an error
+	if s.net != nil && s.net.SilentCuts && (s.net.Cut[s.to.Idx][s.from.Idx] || s.to.Down) {
+		s.net.logf("net: sync packet round %d %d->%d lost in the partition (stream stays open)", b.Round, s.to.Idx, s.from.Idx)
+		return nil
 	}
 	c := s.ch
 	vrt.Send(c, func() { c <- b })
@@ -609,7 +624,7 @@ func (c *Client) SyncChain(ctx context.Context, p dnet.Peer, in *proto.SyncReque
 func (n *Net) ServeSync(ctx context.Context, from, to *Node, in *proto.SyncRequest) chan *proto.BeaconPacket {
 	ch := make(chan *proto.BeaconPacket, 64)
 	sctx, cancel := context.WithCancel(peer.NewContext(ctx, &peer.Peer{Addr: taddr(from.Addr)}))
-	st := &chanStream{ctx: sctx, ch: ch}
+	st := &chanStream{ctx: sctx, ch: ch, net: n, from: from, to: to}
 	store := to.H.Store()
 	vrt.GoNamed(fmt.Sprintf("syncserver-%d->%d", to.Idx, from.Idx), func() {
 		defer cancel()
